@@ -21,7 +21,7 @@ def sh(cmd, cwd=None, timeout=3000):
 
 
 def clean():
-    sh('git checkout -- . && git clean -fdq -e MUT1 -e MUT2 -e MUT3 -e MUT4 -e MUT5 -e MUT6 -e MUT7 -e MUT8 -e target', cwd=wt)
+    sh('git checkout -- . && git clean -fdq -e "MUT*" -e target', cwd=wt)
 
 
 def test_names():
